@@ -65,6 +65,10 @@ class HookError(Exception):
     """Raised by a middleware hook configured to fail."""
 
 
+class RawMsg(bytes):
+    """bytes payload with its own identity (equal payloads stay distinguishable)."""
+
+
 class Env:
     """Per-run recorder and scenario-controlled state."""
 
@@ -352,6 +356,8 @@ def make_tasks(env: Env, broker: ScriptedBroker, cfg: Dict[str, Any]) -> None:
             exc = BodyBaseError(f"base {i}")
         elif outcome == "nores":
             exc = NoResultError()
+        elif outcome == "cerr":
+            exc = asyncio.CancelledError()
         else:
             raise AssertionError(outcome)
         env.raised[i] = exc
@@ -399,6 +405,10 @@ def build_messages(env: Env, broker: ScriptedBroker, cfg: Dict[str, Any]) -> Non
         kind = mc.get("kind", "valid")
         if kind == "malformed":
             data = b"\xff\x00 not a message %d" % idx
+        elif kind == "minus1":
+            data = b"-1"
+        elif kind == "empty":
+            data = b""
         else:
             labels: Dict[str, Any] = {"lbl": f"L{idx}", "n": idx}
             if mc.get("timeout"):
@@ -413,19 +423,24 @@ def build_messages(env: Env, broker: ScriptedBroker, cfg: Dict[str, Any]) -> Non
         if cfg.get("ackable", True):
             broker.msgs.append(AckableMessage(data=data, ack=_make_ack(env, idx, cfg)))
         else:
-            broker.msgs.append(data)
+            broker.msgs.append(RawMsg(data))
 
 
 def _make_ack(env: Env, idx: int, cfg: Dict[str, Any]) -> Any:
+    fail = cfg["msgs"][idx - 1].get("ackfail", False)
     if cfg.get("ackasync"):
         async def aack() -> None:
             env.rec("ack", m=CUR_M.get(), x=idx)
+            if fail:
+                raise ConnectionError("ack failed")
             await asyncio.sleep(0)
             env.rec("ack_e", m=CUR_M.get(), x=idx)
         return aack
 
     def ack() -> None:
         env.rec("ack", m=CUR_M.get(), x=idx)
+        if fail:
+            raise ConnectionError("ack failed")
     return ack
 
 
@@ -490,7 +505,7 @@ def run(scn: Dict[str, Any]) -> List[Dict[str, Any]]:
             try:
                 await orig_cb(message=message, raise_err=raise_err)
             except BaseException as exc:  # noqa: BLE001
-                env.rec("cb_e", m=m, s="raised:" + type(exc).__name__)
+                env.rec("cb_e", m=m, s="raised")
                 raise
             else:
                 env.rec("cb_e", m=m, s="ok")
